@@ -10,7 +10,7 @@ def seg(t):
 with Scratch("census") as sc:
     def one(name):
         text, exp = census.program(name)
-        o = engines.observe(plain, sc.sub(name), {"main.nano": text}, verbose=True)
+        o = engines.observe(plain, sc.sub(name), census.files(name), verbose=True)
         I = seg(o.nanoc.text())
         N = seg(o.native.text()) if o.native else "nanoc:" + engines.classify_nanoc_failure(o.nanoc)
         V = seg(o.vm.text()) if o.vm.rc == 0 else "rc=%s %s" % (o.vm.status, o.vm.errtext().strip().splitlines()[-1][:50] if o.vm.errtext().strip() else "")
